@@ -46,6 +46,10 @@ ColourOf(c) ==
 Shows(got, want) == IF want[5] = 0 THEN got[4] = 0
                     ELSE got[1] = want[1] /\ got[2] = want[2] /\ got[3] = want[3] /\ got[4] >= want[4] /\ got[4] <= want[5]
 
+\* SVG prints opacities with two decimals: the alpha byte may be off by 255 * 0.005 < 2
+ShowsTol(got, want, t) == IF want[5] = 0 THEN got[4] = 0
+                          ELSE got[1] = want[1] /\ got[2] = want[2] /\ got[3] = want[3] /\ got[4] >= want[4] - t /\ got[4] <= want[5] + t
+
 (* ---------------- PNG ---------------- *)
 Unfilter(lines, stride) ==   \* filters 0 (None) and 2 (Up)
   FoldLeft(LAMBDA acc, ln :
